@@ -62,6 +62,9 @@ P = {
  "C26": ("model_checking", "Breaker.tla (atomic-operation grain, free clock) model-checked by TLC; its interleavings replayed step by step on real threads parked at hook points in front of every atomic operation of WriteCircuitBreaker",
          "TLC explores every interleaving of 2 threads x 2 operations (thorough: 3 threads) of the breaker's atomic operations and clock readings with NoUnderflow, OpensOnlyAfterThreshold, ProbesBoundedUnlessLateReset; one behaviour per distinct final state plus random walks are replayed on the real WriteCircuitBreaker (dev profile): real threads are released one hook-to-hook step at a time in the schedule's order with the model's clock, the next hook reached and every return value must match, a panic is a violation. The residual probe-bound race (separate atomics) is a recorded finding whose schedule is replayed on every run.",
          "Episode = from a successful Open->HalfOpen compare_exchange to the next one; recorded finding c26:probes:late-reset.", "5/C26", "h-cluster"),
+ "C08": ("model_checking", "Watermark.tla (reports in any order, persistence steps, crash, restart) model-checked by TLC; behaviours replayed on a real BucketConfirmationManager + Database with crash images taken at hook points between the persistence steps",
+         "TLC checks Monotone, Sound, Complete and RestartNoRegress for every target vector, delivery order with duplicates and stale lower counts, replication factors 1-3 and every crash point of the temp/remove/rename/rename sequence; stale-count histories from the exhaustive runs and random walks are replayed on the real manager (on-disk counts raised through Database::set_confirmations, update_confirmation, persist_bucket_state with directory snapshots at the hook points, fresh manager initialised on the snapshot) comparing the watermark after every step.",
+         "On-disk count of an event >= every count reported for it (write path order). The automatic persistence inside update_confirmation is an allowed PersistStep of the model.", "5/C08", "h-cluster"),
 }
 
 NOT_YET = "not yet built in this session (planned: see DESIGN.md section 5); no claim is made"
